@@ -19,7 +19,7 @@
 //	A <p> rsize R N M L O mode wordsize ops=…   S <p> <assembly line>   P <p> <word> …
 //	H <sexp> | H err …        (hdl) bondmachine.v + aN.v + pN.v + pNrom.v, produced in-process by
 //	                          Write_verilog_main and the per-module generators, parsed by bmvh/vlog
-//	E vals=..;.. idel=..;.. odel=..;.. clocks=<n>   the reactive environment (value stream and stall
+//	E vals=..;.. idel=..;.. odel=..;.. ihold=..;.. orel=..;.. clocks=<n>   the reactive environment (value stream and stall
 //	                          pattern per external input, acknowledge stalls per external output)
 //	T                         VM.Init + Launch_processors
 //	V in=.. iv=.. or=..       what the environment drives before the tick
@@ -86,6 +86,8 @@ type envSpec struct {
 	vals   [][]uint64 // per external input: the values offered, in order (cyclic)
 	idel   [][]int    // per external input: idle ticks before each offer (cyclic)
 	odel   [][]int    // per external output: ticks between valid seen and acknowledge (cyclic)
+	ihold  [][]int    // per external input: ticks valid is held after received rose (cyclic)
+	orel   [][]int    // per external output: ticks received is held after valid fell (cyclic)
 	clocks int        // horizon of the HDL world
 	noise  bool       // sim mode: not an automaton but random flags (tie of the step function only)
 }
@@ -384,6 +386,7 @@ func genCase(r *common.Rng, ticks int, full bool) *caseSpec {
 	usedOut := make([][]int, np) // connected outputs
 	markOut := map[string]bool{}
 	var bonds []edit
+	extDrv := map[int]*drvRef{} // external output -> its driver
 	for _, s := range sinks {
 		if r.Chance(1, 8) || len(drvs) == 0 {
 			continue // unconnected sink
@@ -424,6 +427,9 @@ func genCase(r *common.Rng, ticks int, full bool) *caseSpec {
 		}
 		d := drvs[pick(r, w)]
 		d.fan++
+		if s.proc < 0 {
+			extDrv[s.port] = d
+		}
 		if r.Bool() {
 			bonds = append(bonds, edit{kind: "ab", a: s.name, b: d.name})
 		} else {
@@ -538,9 +544,20 @@ func genCase(r *common.Rng, ticks int, full bool) *caseSpec {
 		}
 		c.env.vals = append(c.env.vals, vs)
 		c.env.idel = append(c.env.idel, genDelays(r))
+		c.env.ihold = append(c.env.ihold, genRelease(r))
 	}
 	for i := 0; i < no; i++ {
 		c.env.odel = append(c.env.odel, genDelays(r))
+		rel := genRelease(r)
+		if d, ok := extDrv[i]; ok && d.fan > 1 {
+			// `received` of an internal output is the AND of its consumers' lines: its producer only
+			// sees "somebody released".  An external consumer that keeps received up for several
+			// ticks after valid fell is only protocol abiding when it is the sole consumer (a sibling
+			// that released lets the producer start the next transfer, which the slow one would miss:
+			// in both worlds — see docs/C02.md, "slow release and fan-out")
+			rel = []int{0}
+		}
+		c.env.orel = append(c.env.orel, rel)
 	}
 	return c
 }
@@ -573,6 +590,23 @@ func genDelaySets(r *common.Rng, long bool) [][]opDelay {
 		sets = append(sets, set)
 	}
 	return sets
+}
+
+// genRelease: slow-release pattern of an environment port (still protocol abiding): how many more
+// ticks received stays up after valid fell / valid stays up after received rose, 0..8
+func genRelease(r *common.Rng) []int {
+	n := 1 + r.Intn(5)
+	d := make([]int, n)
+	style := r.Intn(3) // 0: releases at once, 1: short, 2: up to 8
+	for i := range d {
+		switch style {
+		case 1:
+			d[i] = r.Intn(3)
+		case 2:
+			d[i] = r.Intn(9)
+		}
+	}
+	return d
 }
 
 func genDelays(r *common.Rng) []int {
@@ -1099,6 +1133,12 @@ func newEnv(spec *envSpec, ni, no int) *envState {
 	for len(spec.odel) < no {
 		spec.odel = append(spec.odel, nil)
 	}
+	for len(spec.ihold) < ni {
+		spec.ihold = append(spec.ihold, nil)
+	}
+	for len(spec.orel) < no {
+		spec.orel = append(spec.orel, nil)
+	}
 	e := &envState{spec: spec}
 	e.iidx, e.iph, e.icnt = make([]int, ni), make([]int, ni), make([]int, ni)
 	e.oidx, e.oph, e.ocnt = make([]int, no), make([]int, no), make([]int, no)
@@ -1129,6 +1169,22 @@ func (e *envState) step(outv []uint64, ov []bool, ir []bool) {
 			}
 		case 1:
 			if ir[k] {
+				h := 0 // slow release: valid is held h more ticks after received rose
+				if n := len(e.spec.ihold[k]); n > 0 {
+					h = e.spec.ihold[k][e.iidx[k]%n]
+				}
+				if h == 0 {
+					e.drive.iv[k] = false
+					e.iph[k] = 2
+				} else {
+					e.icnt[k] = h - 1
+					e.iph[k] = 3
+				}
+			}
+		case 3:
+			if e.icnt[k] > 0 {
+				e.icnt[k]--
+			} else {
 				e.drive.iv[k] = false
 				e.iph[k] = 2
 			}
@@ -1164,6 +1220,22 @@ func (e *envState) step(outv []uint64, ov []bool, ir []bool) {
 			}
 		case 2:
 			if !ov[k] {
+				h := 0 // slow release: received is held h more ticks after valid fell
+				if n := len(e.spec.orel[k]); n > 0 {
+					h = e.spec.orel[k][(e.oidx[k]-1)%n]
+				}
+				if h == 0 {
+					e.drive.or[k] = false
+					e.oph[k] = 0
+				} else {
+					e.ocnt[k] = h - 1
+					e.oph[k] = 3
+				}
+			}
+		case 3:
+			if e.ocnt[k] > 0 {
+				e.ocnt[k]--
+			} else {
 				e.drive.or[k] = false
 				e.oph[k] = 0
 			}
@@ -1184,7 +1256,16 @@ func envLine(s *envSpec) string {
 	for i, v := range s.odel {
 		od[i] = joinI(v)
 	}
-	return fmt.Sprintf("E vals=%s idel=%s odel=%s clocks=%d", strings.Join(vs, ";"), strings.Join(id, ";"), strings.Join(od, ";"), s.clocks)
+	ih := make([]string, len(s.ihold))
+	for i, v := range s.ihold {
+		ih[i] = joinI(v)
+	}
+	or := make([]string, len(s.orel))
+	for i, v := range s.orel {
+		or[i] = joinI(v)
+	}
+	return fmt.Sprintf("E vals=%s idel=%s odel=%s ihold=%s orel=%s clocks=%d", strings.Join(vs, ";"), strings.Join(id, ";"),
+		strings.Join(od, ";"), strings.Join(ih, ";"), strings.Join(or, ";"), s.clocks)
 }
 
 func runCase(r *common.Rng, c *caseSpec, mode string) {
@@ -1477,6 +1558,10 @@ func replay(path string, mode string) {
 					c.env.idel = parseIntLists(x[1])
 				case "odel":
 					c.env.odel = parseIntLists(x[1])
+				case "ihold":
+					c.env.ihold = parseIntLists(x[1])
+				case "orel":
+					c.env.orel = parseIntLists(x[1])
 				case "clocks":
 					c.env.clocks = atoi(x[1])
 				}
